@@ -21,7 +21,11 @@ CLAIM = dict(
          "every notifying step, token schemes and parameter schemes (incl. Digest's always-quoted keys: the per-key-quoting dict "
          "round trip) re-read equal, list assignment gives one line per item; mimetype_params as ONE held view: a notifying "
          "operation writes the parameters next to the response's current media type whatever happened to Content-Type in "
-         "between (re-read over the C06 round-trip contract); date-valued scalars over a date contract. "
+         "between (re-read over the C06 round-trip contract); date-valued scalars over a date contract; the header_property "
+         "scalars generically over the table (attribute, header name, load / dump pair) regenerated from sansio/response.py: "
+         "for every str / int / age / set-valued row, assignment leaves exactly the dumped text, reads back the value, deletion "
+         "removes the header (the rows not covered are listed by a theorem: the three dates, covered by the date contract, and "
+         "the two cross-origin enum policies, oracle only). "
          "The on_update decision functions, the _set_cache_value decision chain, the property tables (directive key / empty "
          "value / type, CSP directive names, header names) and the change-notification tables of UpdateDictMixin are regenerated "
          "from the source on every run; the models are compared with werkzeug.wrappers.Response by differential execution on "
@@ -30,8 +34,10 @@ CLAIM = dict(
          "urllib.request.parse_http_list and of str.strip/partition/split (validated differentially); int() modelled on ASCII "
          "decimal strings only. Items / values containing CR or LF are outside the domain (Headers refuses them, C05); keys ending "
          "in an asterisk (RFC 2231 form) are outside the dict codec's domain. NOT modelled in Coq, judged on the implementation by "
-         "the harness oracles only: the string-valued, CORS set-valued and enum-valued scalar properties, whole-property "
-         "assignment of ContentRange objects. Contracts (Section variables, validated by the harness against the library): "
+         "the harness oracles only: cross_origin_opener_policy / cross_origin_embedder_policy (enum codecs), "
+         "access_control_allow_credentials, retry_after and set_etag / get_etag (not header_property rows), whole-property "
+         "assignment of ContentRange objects. _DictAccessorProperty.__get__ / __set__ / __delete__, parse_age, dump_age and "
+         "parse_set_header are pinned statement by statement. Contracts (Section variables, validated by the harness against the library): "
          "http_date / parse_date (email.utils, datetime; over naive, UTC, fixed-offset, zero-offset and ZoneInfo zones), "
          "parse_options_header inverting dump_options_header (property C06). Known finding: a set view holding case-insensitive duplicates drifts.",
     design="6/C16")
@@ -291,6 +297,70 @@ def gen() -> None:
                   and any(isinstance(d, ast.Attribute) and d.attr == "setter" for d in n.decorator_list)]
         if len(setter) != 1 or [ast.unparse(x) for x in c08._body(setter[0])] != body:
             raise px.Unsupported(f"WWWAuthenticate.{prop} setter changed")
+    # ---- header_property table: attribute, header name, codec (from the load / dump pair), read_only
+    rows = []
+    for n in R.body:
+        v = n.value if isinstance(n, ast.Assign) else None
+        if not isinstance(v, ast.Call):
+            continue
+        f = v.func.value if isinstance(v.func, ast.Subscript) else v.func
+        if not (isinstance(f, ast.Name) and f.id == "header_property"):
+            continue
+        attr = n.targets[0].id
+        args = {"name": None, "default": "None", "load_func": "None", "dump_func": "None", "read_only": "None"}
+        for key, a in zip(["name", "default", "load_func", "dump_func", "read_only"], v.args):
+            args[key] = ast.unparse(a)
+        for kw in v.keywords:
+            if kw.arg == "doc":
+                continue
+            if kw.arg not in args:
+                raise px.Unsupported(f"header_property({attr}): unknown keyword {kw.arg}")
+            args[kw.arg] = ast.unparse(kw.value)
+        pair = (args["load_func"], args["dump_func"])
+        codec = {("None", "None"): "CStr", ("int", "str"): "CInt", ("parse_age", "dump_age"): "CAge",
+                 ("parse_set_header", "dump_header"): "CSet", ("parse_date", "http_date"): "CDate"}.get(pair)
+        if codec is None:
+            if pair[0].startswith("lambda value: CO") and pair[1] == "lambda value: value.value":
+                codec = "CEnum"
+            else:
+                raise px.Unsupported(f"header_property({attr}): load / dump pair {pair} not in the model's codec table")
+        if args["read_only"] not in ("None", "False"):
+            raise px.Unsupported(f"header_property({attr}) became read-only")
+        if codec != "CEnum" and args["default"] != "None":
+            raise px.Unsupported(f"header_property({attr}) has a default {args['default']}")
+        rows.append((attr, ast.literal_eval(args["name"]), codec))
+    if len(rows) < 15:
+        raise px.Unsupported("header_property table unexpectedly small")
+    out += "Definition header_props : list (str * (str * hcodec)) :=\n  [" + ";\n   ".join(
+        f"({px.coq_string_codes(a)}, ({px.coq_string_codes(h)}, {c}))" for a, h, c in rows) + "].\n"
+    # the descriptor itself: get / set / delete
+    it = px.load("_internal.py")
+    DA = px.find_class(it, "_DictAccessorProperty")
+    if [ast.unparse(x) for x in c08._body(c08._method(DA, "__set__"))] != [
+            "if self.read_only:\n    raise AttributeError('read only property')",
+            "if self.dump_func is not None:\n    self.lookup(instance)[self.name] = self.dump_func(value)\nelse:\n    self.lookup(instance)[self.name] = value"]:
+        raise px.Unsupported("_DictAccessorProperty.__set__ changed")
+    if [ast.unparse(x) for x in c08._body(c08._method(DA, "__delete__"))] != [
+            "if self.read_only:\n    raise AttributeError('read only property')", "self.lookup(instance).pop(self.name, None)"]:
+        raise px.Unsupported("_DictAccessorProperty.__delete__ changed")
+    getters = [n for n in DA.body if isinstance(n, ast.FunctionDef) and n.name == "__get__" and not n.decorator_list]
+    if len(getters) != 1 or [ast.unparse(x) for x in c08._body(getters[0])] != [
+            "if instance is None:\n    return self", "storage = self.lookup(instance)", "if self.name not in storage:\n    return self.default",
+            "value = storage[self.name]",
+            "if self.load_func is not None:\n    try:\n        return self.load_func(value)\n    except (ValueError, TypeError):\n        return self.default",
+            "return value"]:
+        raise px.Unsupported("_DictAccessorProperty.__get__ changed")
+    ht = px.load("http.py")
+    for fname, want in (
+            ("parse_set_header", ["if not value:\n    return ds.HeaderSet(None, on_update)", "return ds.HeaderSet(parse_list_header(value), on_update)"]),
+            ("parse_age", ["if not value:\n    return None", "try:\n    seconds = int(value)\nexcept ValueError:\n    return None",
+                           "if seconds < 0:\n    return None", "try:\n    return timedelta(seconds=seconds)\nexcept OverflowError:\n    return None"]),
+            ("dump_age", ["if age is None:\n    return None",
+                          "if isinstance(age, timedelta):\n    age = int(age.total_seconds())\nelse:\n    age = int(age)",
+                          "if age < 0:\n    raise ValueError('age cannot be negative')", "return str(age)"])):
+        fns = [n for n in ht.body if isinstance(n, ast.FunctionDef) and n.name == fname]
+        if len(fns) != 1 or [ast.unparse(x) for x in c08._body(fns[0])] != want:
+            raise px.Unsupported(f"http.{fname} changed")
     px.write_if_changed(os.path.join(COQ, "C16", "Gen.v"), out)
 
 
@@ -1531,6 +1601,95 @@ def oracle_scalars(chk, rng, n):
     chk.count("scalar properties(oracle only)", n)
 
 
+# ====================================================================== harness: header_property pairs over the table
+
+HP_STR = ["x", "", "http://a/b?c=d", "text/plain; charset=utf-8", "bytes", "*", "a, b", '"q"', "é", " lead", "Tab\there"]
+HP_INT = [0, 1, 7, 42, 3600, 10 ** 12, -3]
+HP_LIST = [[], ["GET"], ["GET", "POST"], ["X-A", "Content-Type"], ["a b", "c"], ['q"t'], ["a,b", "x"], ["Dup", "dup"], [""], ["é"]]
+HP_TEXT = ["0", "7", "007", "-3", "-0", "abc", "", "-", "12a", "3600", "a, b", '"x y", z', "GET, get", "x"]
+
+
+def _hp_table():
+    """(attribute, header name, codec) rows, read from the class the same way the translator reads them"""
+    from werkzeug.sansio.response import Response as SR
+    from werkzeug.utils import header_property
+    rows = []
+    for attr, d in vars(SR).items():
+        if isinstance(d, header_property):
+            lf, df = getattr(d.load_func, "__name__", None), getattr(d.dump_func, "__name__", None)
+            codec = {(None, None): "CStr", ("int", "str"): "CInt", ("parse_age", "dump_age"): "CAge",
+                     ("parse_set_header", "dump_header"): "CSet", ("parse_date", "http_date"): "CDate"}.get((lf, df), "CEnum")
+            rows.append((attr, d.name, codec))
+    return rows
+
+
+def _hp_out(v) -> str:
+    from datetime import timedelta
+    from werkzeug.datastructures import HeaderSet
+    if isinstance(v, timedelta):
+        return O(int(v.total_seconds())) if v == timedelta(seconds=int(v.total_seconds())) else "RAISED:fractional"
+    if isinstance(v, HeaderSet):
+        return OL(list(v))
+    return O(v)
+
+
+def header_properties(chk, R, rng, quick):
+    from datetime import timedelta
+    rows = _hp_table()
+    n = 0
+    for attr, hdr, codec in rows:
+        if codec in ("CDate", "CEnum"):
+            continue
+        vals = {"CStr": HP_STR, "CInt": HP_INT, "CAge": HP_INT, "CSet": HP_LIST}[codec]
+        for init in ((), ((hdr, "old"),), ((hdr.lower(), "7"), ("X-Other", "1"), (hdr.upper(), "second"))):
+            # reading whatever text the header holds
+            for text in HP_TEXT:
+                ini = tuple(init) + ((hdr, text),) if init != ((hdr, "old"),) else ((hdr, text),)
+                case = {"kind": "hp", "attr": attr, "init": [list(p) for p in ini]}
+                r = new_response(ini)
+                try:
+                    got = _hp_out(getattr(r, attr))
+                except Exception as e:  # noqa: BLE001
+                    chk.fail("scalar-drift", f"reading {attr} raised {type(e).__name__}: {e}", case)
+                    got = "RAISED:" + type(e).__name__
+                R.codec("hpg", f"{kvs(ini, S)} {S(attr)}", got)
+            for v in vals:
+                case = {"kind": "hp", "attr": attr, "init": [list(p) for p in init], "value": v}
+                r = new_response(init)
+                tok = {"CStr": lambda: "s" + S(v), "CInt": lambda: "i" + str(v), "CAge": lambda: "i" + str(v), "CSet": lambda: "l" + L(v)}[codec]()
+                pv = timedelta(seconds=v) if codec == "CAge" and rng.random() < 0.5 else v
+                try:
+                    setattr(r, attr, pv)
+                except (ValueError, TypeError) as e:
+                    R.codec("hp", f"{kvs(init, S)} {S(attr)} {tok}", "E" + ("TypeError" if codec == "CAge" else exn_name(e)))
+                    continue
+                obs = []
+                try:
+                    obs.append(O(r.headers.get(hdr)))
+                    obs.append(_hp_out(getattr(r, attr)))
+                    # oracle, independent of the model: exactly one line under the name, holding the dumped text; the read gives the value back
+                    lines = r.headers.getlist(hdr)
+                    want_text = {"CStr": lambda: v, "CInt": lambda: str(v), "CAge": lambda: str(v), "CSet": lambda: None}[codec]()
+                    if len(lines) != 1 or (want_text is not None and lines[0] != want_text):
+                        chk.fail("scalar-drift", f"{attr} = {pv!r} leaves {lines!r} under {hdr}", case)
+                    back = getattr(r, attr)
+                    want = timedelta(seconds=v) if codec == "CAge" else v
+                    if (list(back) if codec == "CSet" else back) != want:
+                        chk.fail("scalar-drift", f"{attr} = {pv!r} reads back {back!r}", case)
+                    delattr(r, attr)
+                    obs.append(_hp_out(getattr(r, attr)))
+                    obs.append(O(r.headers.get(hdr)))
+                    if hdr in r.headers or getattr(r, attr) is not None:
+                        chk.fail("scalar-drift", f"del {attr} leaves {r.headers.getlist(hdr)!r}", case)
+                except Exception as e:  # noqa: BLE001
+                    chk.fail("implementation-raised", f"{type(e).__name__}: {e} escaped while reading / deleting {attr}", case)
+                    obs.append("RAISED:" + type(e).__name__)
+                R.codec("hp", f"{kvs(init, S)} {S(attr)} {tok}", "|".join(obs))
+                n += 1
+    chk.count("header_property rows exercised", sum(1 for r in rows if r[2] not in ("CDate", "CEnum")))
+    chk.count("header_property rows left to the oracle only (date via contract, enum)", sum(1 for r in rows if r[2] in ("CDate", "CEnum")))
+
+
 # ====================================================================== harness: the run
 
 class Runner:
@@ -1775,6 +1934,9 @@ def run(chk: Check) -> None:
         except ValueError:
             v = "N"
         R.codec("int", S(s), v)
+
+    # ---- scalar header properties, over the regenerated table
+    header_properties(chk, R, rng, quick)
 
     # ---- views judged by oracles only
     oracle_content_range(chk, rng, 300 if quick else 6000)
